@@ -136,14 +136,11 @@ public:
               {
                 ++_threadCount;
                 context = &_threads.append();
+                VERIF_POINT(17);
+                context->_pool = this;
+                if (!context->_thread.start(*context, &ThreadContext::proc))
+                  context->_terminated = true;
               }
-            }
-            if (context)
-            {
-              VERIF_POINT(17);
-              context->_pool = this;
-              if (!context->_thread.start(*context, &ThreadContext::proc))
-                context->_terminated = true;
             }
           }
         }
